@@ -324,7 +324,11 @@ func (w *World) checkRemovedTable(op *vos.Op, path string) {
 			if ci := w.calls[op.Proc]; ci != nil {
 				call = ci.Kind
 			}
-			w.violate([]string{"C05"}, "listed-table-removed|by-"+call, "%s removed a table that tables.list names (list %v)", op.String(), names)
+			props := []string{"C05"}
+			if call == "close" || call == "clean" {
+				props = []string{"C05", "C16"} // Close and Clean never remove a listed table
+			}
+			w.violate(props, "listed-table-removed|by-"+call, "%s removed a table that tables.list names (list %v)", op.String(), names)
 			return
 		}
 	}
